@@ -33,3 +33,13 @@ RULE += (" Sub-check occupancy_legs (no run): generated populations (up to 40 un
          "unit of the same cell, to a unit elsewhere or to a filtered-out unit; after each leg update() is called and "
          "occupant lists, the private surplus lists (per cell) and the active record are compared with the positions. "
          "Non-trivial: a sequence with a switch, a crossing and a surplus list.")
+
+from . import C11_boundary  # noqa: E402  (handler part: the cell-boundary handler on drawn in-states)
+CHECKS = CHECKS + C11_boundary.CHECKS
+RULE += (" Sub-check boundary_handler (no run): CellBoundaryEventHandler on drawn branches (cubic/cuboid boxes, 2-7 "
+         "cells per side along the axes of motion, positions in the bulk, on a wall, next to a wall, at the top of the box; 1..dim velocity "
+         "components of either sign, magnitudes 1e-3..1e3; point mass, point mass of a composite, whole object); "
+         "oracle from the extents of the unit's own cell and identifier arithmetic: candidate time = first wall "
+         "reached (not earlier, not later), out-state on the facing limit of the neighbour cell, in the neighbour on "
+         "the crossing axis only, all units time-sliced with unchanged velocity. Non-trivial: oblique or downward "
+         "motion or a start exactly on a wall.")
